@@ -157,8 +157,9 @@ type C01Arg struct {
 	Reload     bool     `json:"reload"`
 	Snapshot   bool     `json:"snapshot"`
 	SnapLive   bool     `json:"snaplive"`   // save a snapshot and keep running; load it on the running store later
-	FaultWrite bool     `json:"faultwrite"` // local writes whose head-list write fails
+	FaultWrite bool     `json:"faultwrite"` // local writes whose head-list write fails; Loads that fail at once
 	Gated      bool     `json:"gated"`
+	Partial    bool     `json:"partial"` // the observer may restart and load only its newest entry
 }
 
 func (a C01Arg) Name() string {
@@ -180,6 +181,9 @@ func (a C01Arg) Name() string {
 	}
 	if a.FaultWrite {
 		n += "/faulty-writes"
+	}
+	if a.Partial {
+		n += "/partial-reload"
 	}
 	if a.Gated {
 		n += "/gated"
@@ -245,6 +249,8 @@ func runC01Unit(c *explore.Ctx, prop string, oracle func(w *Writers, a C01Arg)) 
 			w.Routes, w.Antichains, w.Reload, w.Snapshot, w.Gated = a.Routes, a.Antichains, a.Reload, a.Snapshot, a.Gated
 			w.SnapshotLive = a.SnapLive
 			w.FaultyWrite = a.FaultWrite
+			w.AbortedLoad = a.FaultWrite
+			w.PartialReload = a.Partial
 			if a.Observer {
 				if err := w.AddObserver(); err != nil {
 					return nil, err
@@ -290,6 +296,9 @@ func init() {
 				// reload from disk and snapshot round trips
 				u = append(u, c01Units(C01Arg{DFSArg: DFSArg{Kind: k.kind, Writers: 2, Depth: d3, Alpha: k.alpha}, Observer: true, Routes: []string{"direct"}, Reload: true, Snapshot: true}, 16)...)
 			}
+			// document batches whose members are superseded one by one: a replica that sees batch and update together
+			// (late joiner, reload) against one that saw them one after the other
+			u = append(u, c01Units(C01Arg{DFSArg: DFSArg{Kind: "docstore", Writers: 2, Depth: 4, Alpha: "batch"}, Observer: true, Routes: []string{"sync"}, Reload: true}, 8)...)
 			// a snapshot saved earlier loaded on the running store, which holds more by then (the snapshot route
 			// re-delivering entries the replica already has)
 			for _, k := range []struct{ kind, alpha string }{{"eventlog", "one"}, {"keyvalue", "twokeys"}} {
